@@ -150,8 +150,14 @@ func c04HistScenarios(tier string) []*h.Scenario {
 				hh.W.AddNode(a, sim.NodeOpt{Age: 31 * Q, TaintAge: dp(5 * Q)})
 			},
 			Events: func(hh *h.Hist, slot int) []h.Event {
-				return []h.Event{evASGEdit(gg.ASG.Name, gg.ASG.Min, 5), evASGEdit(gg.ASG.Name, gg.ASG.Min, 4), evASGEdit(gg.ASG.Name, gg.ASG.Min, 12),
+				ev := []h.Event{evASGEdit(gg.ASG.Name, gg.ASG.Min, 5), evASGEdit(gg.ASG.Name, gg.ASG.Min, 4), evASGEdit(gg.ASG.Name, gg.ASG.Min, 12),
 					evBurst(gg, 2, 3000), evClearAllPods(gg), evSkipSettle(), evRestart()}
+				if gg.Opts.MaxNodes > 0 {
+					// the operator pins the cloud group above max_nodes for a while (minimum 7 of at most 8) and
+					// releases it again: max_nodes stays the bound throughout
+					ev = append(ev, evASGEdit(gg.ASG.Name, 7, 8), evASGEdit(gg.ASG.Name, 0, 8))
+				}
+				return ev
 			},
 		}
 		out = append(out, s)
